@@ -300,11 +300,20 @@ def stream(data: bytes):
     or a large buffer (what open(path, 'rb') returns), a real temporary file, a dump that does not begin at offset 0 of
     its stream (behind a wrapper the caller has already consumed: in memory and on disk), and the file objects of the
     compression modules (gzip / bz2 / lzma: seekable streams that deliver the dump's bytes while their fileno() names
-    a file holding other bytes).  Rotates deterministically."""
+    a file holding other bytes), and a memory-mapped file.  Rotates deterministically."""
     import io
     import tempfile
     _STREAM_TURN[0] += 1
-    k = _STREAM_TURN[0] % 11
+    k = _STREAM_TURN[0] % 12
+    if k == 11 and data:
+        # a memory-mapped file (mmap objects are seekable streams with read(); a seek beyond the end raises there)
+        import mmap
+        tmp = tempfile.TemporaryFile()
+        tmp.write(data)
+        tmp.flush()
+        m = mmap.mmap(tmp.fileno(), 0, access=mmap.ACCESS_READ)
+        return m
+    k = k % 11
     if k in (0, 1):
         return io.BytesIO(data)
     if k == 2:
